@@ -14,15 +14,16 @@ import (
 )
 
 type HarnessSpec struct {
-	Name     string           `json:"name"`
-	Pkg      string           `json:"pkg"` // directory relative to repo, e.g. "diam"
-	Quick    map[string]int64 `json:"quick"`
-	Thorough map[string]int64 `json:"thorough"`
-	Sched    bool             `json:"sched"`
-	Preempt  [2]int           `json:"preempt"`
-	InitDict bool             `json:"init_dict"`
-	Skip     string           `json:"skip,omitempty"` // "quick" => thorough only
-	What     string           `json:"what"`
+	Name      string           `json:"name"`
+	Pkg       string           `json:"pkg"` // directory relative to repo, e.g. "diam"
+	Quick     map[string]int64 `json:"quick"`
+	Thorough  map[string]int64 `json:"thorough"`
+	Sched     bool             `json:"sched"`
+	Preempt   [2]int           `json:"preempt"`
+	InitDict  bool             `json:"init_dict"`
+	Skip      string           `json:"skip,omitempty"` // "quick" => thorough only
+	Summarise []string         `json:"summarise,omitempty"`
+	What      string           `json:"what"`
 }
 
 type CheckSpec struct {
@@ -175,6 +176,22 @@ func cmdRun(args []string) int {
 		cfg := &Config{MaxSteps: 50_000_000, MaxCallDepth: 400, MaxAlloc: 1 << 16, MaxDecisions: 4000, SplitLimit: 300,
 			Trace: *trace, QueryTimeoutMs: 20000, Workers: nw, Params: params, InitPkgs: []string{pkgPath},
 			ExploreSched: hs.Sched, Preempt: pre, MaxViolations: 24, Solver: SolverKind(*solverKind), Verbose: *verbose}
+		cfg.Summaries = map[string]bool{}
+		for _, sname := range hs.Summarise {
+			cfg.Summaries[repoModule+"/"+sname] = true
+		}
+		for sname := range cfg.Summaries {
+			i := strings.LastIndex(sname, ".")
+			sf := P.Func(sname[:i], sname[i+1:])
+			if sf == nil {
+				fmt.Fprintf(os.Stderr, "summarised function %s not found\n", sname)
+				return 2
+			}
+			if err := checkPure(sf, cfg.Summaries); err != nil {
+				fmt.Fprintf(os.Stderr, "cannot summarise: %v\n", err)
+				return 2
+			}
+		}
 		if v, ok := params["max_steps"]; ok {
 			cfg.MaxSteps = v
 		}
@@ -238,6 +255,23 @@ func cmdRun(args []string) int {
 		if len(ex.reach) == 0 && exit == 0 && len(ex.violations) == 0 {
 			rep.Inconclusive = append(rep.Inconclusive, hs.Name+": VACUOUS: no path reached a vReach marker")
 			exit = 2
+		}
+	}
+	if os.Getenv("SYMGO_FORKSTAT") != "" {
+		type kv struct {
+			k string
+			v int
+		}
+		var l []kv
+		for k, v := range forkStat {
+			l = append(l, kv{k, v})
+		}
+		sort.Slice(l, func(i, j int) bool { return l[i].v > l[j].v })
+		for i, e := range l {
+			if i > 40 {
+				break
+			}
+			fmt.Fprintf(os.Stderr, "FORK %7d %s\n", e.v, e.k)
 		}
 	}
 	rep.WallS = time.Since(t0).Seconds()
